@@ -153,7 +153,8 @@ def import_from_sympy_latex(expr_string: str,
             # ADC-Amplitude or t-amplitudes
             if is_adc_amplitude(name) or is_t_amplitude(name):
                 base = Amplitude(name, upper, lower)
-            elif name == tensor_names.coulomb:  # eri in chemist notation
+            # eri in chemist notation or symbolic orbital energy denominator
+            elif name in (tensor_names.coulomb, tensor_names.sym_orb_denom):
                 base = SymmetricTensor(name, upper, lower)
             else:
                 base = AntiSymmetricTensor(name, upper, lower)
